@@ -146,6 +146,7 @@ def check_value(v, origin):
     from aws_durable_execution_sdk_python.exceptions import ExecutionError
     from aws_durable_execution_sdk_python.serdes import deserialize, serialize
 
+    sys.setrecursionlimit(20000)  # the oracle gets a deep stack; the SDK calls below run under the interpreter's default limit
     try:
         c0 = canon(v)
     except RecursionError:
